@@ -1,9 +1,9 @@
 (** C05 — output pools are transparent: reuse never changes results or re-simulates.
     Model: Store/Pool.v (OutputPool get_batch/add_batch/remove_store, ComputationContext validation,
     one inference run over a persistent pool through the PoolLoader and the executor of Graph/Net.v).
-    Proofs: Proofs/C05_Pool.v, Proofs/C05_Cache.v (with C03's executor and C02's cache theorems). *)
+    Proofs: Proofs/C05_Pool.v, Proofs/C05_Cache.v, Proofs/C05_History.v (with C03's executor and C02's cache theorems). *)
 From Coq Require Import List String ZArith Arith Bool.
-From Elfi Require Import Graph.Net Store.Pool Proofs.C03_Exec Proofs.C02_Order Proofs.C05_Pool Proofs.C05_Cache.
+From Elfi Require Import Graph.Net Store.Layout Store.Pool Proofs.C03_Exec Proofs.C02_Order Proofs.C05_Pool Proofs.C05_Cache Proofs.C05_History Proofs.C05_Layout.
 Import ListNotations.
 
 (** If the values supplied for some nodes are the values a fresh computation gives them, then every
@@ -88,6 +88,34 @@ Theorem C05_loaded_nets_coherent :
 Proof. exact loaded_coherent. Qed.
 Print Assumptions C05_loaded_nets_coherent.
 
+(** Histories of runs on ONE BatchHandler + ComputationContext (the same inference object sampled
+    again: reset() between the runs, any batch indices, stores removed in between).  The model's only
+    cross-run state is the compiled net's grown output set, the executor cache and the pool; along every
+    such history no batch's call log contains a stored node the pool held for that batch before it. *)
+Theorem C05_history_held_store_never_runs :
+  forall h s,
+    NoDup (map fst (stores (rs_pool s))) -> CacheOK (rs_cache s) -> history_clean s h.
+Proof. intros h s H1 H2. apply history_held_never_runs. split; assumption. Qed.
+Print Assumptions C05_history_held_store_never_runs.
+
+Theorem C05_history_from_new_inference_object :
+  forall g pl h,
+    NoDup (map fst (stores pl)) -> history_clean {| rs_net := g; rs_pool := pl; rs_cache := empty_cache |} h.
+Proof. exact history_from_start. Qed.
+Print Assumptions C05_history_from_new_inference_object.
+
+(** A run does not depend on the earlier runs of the same inference object: a history of runs on one
+    handler (no store removed in between) returns, batch by batch, what fresh executor caches return,
+    and leaves the same pool. *)
+Theorem C05_same_handler_history_transparent :
+  forall g pl (h : list (list nat)),
+    wf_base g -> NoDup (map fst (stores pl)) ->
+    visible (flat_obs (run_history {| rs_net := g; rs_pool := pl; rs_cache := empty_cache |}
+                                   (map (fun idxs => ([], idxs)) h)))
+    = visible (run_batches_fresh {| rs_net := g; rs_pool := pl; rs_cache := empty_cache |} (List.concat h)).
+Proof. exact same_handler_history_transparent. Qed.
+Print Assumptions C05_same_handler_history_transparent.
+
 (** Non-vacuity of the two theorems above: the compiled MA2-like net meets wf_base, and with a pool
     over the simulator and the summary, three batches run (the second and third through the order
     cache filled by the first, batch 0 twice) and agree with the fresh-cache run. *)
@@ -112,6 +140,71 @@ Example C05_cache_example :
          end
   | Err _ => False
   end.
+Proof. vm_compute. repeat split. Qed.
+
+(** Non-vacuity of the history theorems: one handler fills batches 0,1, is reset and serves batches
+    0,1,2 (the first two from the pool: besides the observed twins only the distance runs, the third is simulated), then the summary's
+    store is removed and batch 0 is served again (the summary runs, the simulator does not). *)
+Example C05_history_example :
+  match compile c5_src ["d"%string] with
+  | Ok g =>
+      let pl := {| stores := [("y"%string, None); ("s"%string, None)]; pl_batch_size := None; pl_seed := None |} in
+      match run_history {| rs_net := g; rs_pool := pl; rs_cache := empty_cache |}
+                        [([], [0; 1]); ([], [0; 1; 2]); (["s"%string], [0])]%nat with
+      | Ok (_, obs) =>
+          map (map snd) obs =
+          [[["_s_observed"; "_d_observed"; "t"; "y"; "s"; "d"]; ["_s_observed"; "_d_observed"; "t"; "y"; "s"; "d"]];
+           [["_s_observed"; "_d_observed"; "d"]; ["_s_observed"; "_d_observed"; "d"];
+            ["_s_observed"; "_d_observed"; "t"; "y"; "s"; "d"]];
+           [["_s_observed"; "_d_observed"; "s"; "d"]]]%string
+      | Err _ => False
+      end
+  | Err _ => False
+  end.
+Proof. vm_compute. reflexivity. Qed.
+
+(** On-disk stores and memory layouts (Store/Layout.v): a batch is any strided window into a buffer (C,
+    Fortran, permuted axes, every second element, negative strides ...).  NpyArray.append writes its
+    logical row-major traversal: a[idx] lands at the row-major position of idx, whatever the strides. *)
+Theorem C05_tobytes_C_is_logical_order :
+  forall a idx, valid idx (nd_shape a) -> nth_error (tobytes_C a) (lin (nd_shape a) idx) = Some (elem a idx).
+Proof. exact tobytes_C_at. Qed.
+Print Assumptions C05_tobytes_C_is_logical_order.
+
+(** Appending any number of batches of one shape, each with its own layout, and reading batch i back
+    through the row-major map of the file returns at every valid index the element the i-th produced
+    array has there: an on-disk store holds exactly the values that were produced. *)
+Theorem C05_stored_batch_reads_back :
+  forall bs sh i a idx,
+    (forall b, In b bs -> nd_shape b = sh) -> nth_error bs i = Some a -> valid idx sh ->
+    read_back (append_all bs) sh i idx = elem a idx.
+Proof. exact append_read_back. Qed.
+Print Assumptions C05_stored_batch_reads_back.
+
+Theorem C05_store_ok_sound :
+  forall o, store_ok o = true ->
+    forall i a r, nth_error (so_batches o) i = Some a -> nth_error (so_read o) i = Some r ->
+    forall idx, valid idx (nd_shape a) ->
+    exists v, elem a idx = Some v /\ nth_error r (lin (nd_shape a) idx) = Some v.
+Proof. exact store_ok_sound. Qed.
+Print Assumptions C05_store_ok_sound.
+
+(** Non-vacuity: a C-ordered 2x3 batch, then the same shape Fortran-ordered (buffer column-major,
+    strides 1 and 2) and as every second element of a reversed buffer; the file holds the three logical
+    traversals one after the other and every batch reads back as produced. *)
+Example C05_layout_example :
+  let c := {| nd_shape := [2; 3]%nat; nd_strides := [3; 1]%Z; nd_offset := 0%Z; nd_buf := [1; 2; 3; 4; 5; 6]%Z |} in
+  let f := {| nd_shape := [2; 3]%nat; nd_strides := [1; 2]%Z; nd_offset := 0%Z; nd_buf := [11; 14; 12; 15; 13; 16]%Z |} in
+  let s := {| nd_shape := [2; 3]%nat; nd_strides := [-6; -2]%Z; nd_offset := 11%Z;
+              nd_buf := [0; 26; 0; 25; 0; 24; 0; 23; 0; 22; 0; 21]%Z |} in
+  append_all [c; f; s] = map Some [1; 2; 3; 4; 5; 6; 11; 12; 13; 14; 15; 16; 21; 22; 23; 24; 25; 26]%Z
+  /\ read_back (append_all [c; f; s]) [2; 3]%nat 1 [1; 2]%nat = Some 16%Z
+  /\ store_agree {| so_batches := [c; f; s]; so_file := Some [1; 2; 3; 4; 5; 6; 11; 12; 13; 14; 15; 16; 21; 22; 23; 24; 25; 26]%Z;
+                    so_read := [[1; 2; 3; 4; 5; 6]; [11; 12; 13; 14; 15; 16]; [21; 22; 23; 24; 25; 26]]%Z |} = true
+  /\ store_ok {| so_batches := [c; f; s]; so_file := None;
+                 so_read := [[1; 2; 3; 4; 5; 6]; [11; 12; 13; 14; 15; 16]; [21; 22; 23; 24; 25; 26]]%Z |} = true
+  (* the column-major bytes of the Fortran batch are NOT what must be stored *)
+  /\ store_ok {| so_batches := [f]; so_file := None; so_read := [[11; 14; 12; 15; 13; 16]]%Z |} = false.
 Proof. vm_compute. repeat split. Qed.
 
 (** Non-vacuity: the MA2-like store sets ("the simulator and/or what is computed from it", with the
